@@ -288,6 +288,19 @@ Section SA.
   (** [for (auto it = begin(); it != end(); ++it)]: the pairs (index, value) as reported *)
   Definition sa_iter (s : sa V) : option (list (N * V)) :=
     do it <- sa_begin s; sa_iter_loop s (2 * length (sa_cells s) + 2) it.
+
+  (** the same loop, collecting the iterators themselves (used by [partition]) *)
+  Fixpoint sa_its_loop (s : sa V) (fuel : nat) (it : sait V) : option (list (N * N * V)) :=
+    match it with
+    | None => Some []
+    | Some (q, vf, v) =>
+        match fuel with
+        | O => None
+        | S f => do it' <- sa_next s q vf; do r <- sa_its_loop s f it'; Some ((q, vf, v) :: r)
+        end
+    end.
+  Definition sa_its (s : sa V) : option (list (N * N * V)) :=
+    do it <- sa_begin s; sa_its_loop s (2 * length (sa_cells s) + 2) it.
 End SA.
 
 (** ** SparseBitMap<4>: bit i lives in word [i >> 6] of a SparseArray<uint64_t, 4>, at bit [i & 63] *)
@@ -366,6 +379,17 @@ Section BM.
         let bit := N.shiftl 1 (N.land i 63) in
         if N.land w bit =? 0 then Some bmit_end
         else Some (it, N.land w (bit - 1), i)     (* mask &= ((1ull << (i & 63)) - 1) *)
+    end.
+
+  (** [for (auto it = begin(); it != end(); ++it)] over the bits, collecting the iterators *)
+  Fixpoint bm_its_loop (t : sa N) (fuel : nat) (it : bmit) : option (list bmit) :=
+    match fst (fst it) with
+    | None => Some []
+    | Some _ =>
+        match fuel with
+        | O => None
+        | S f => do it' <- bm_next t it; do r <- bm_its_loop t f it'; Some (it :: r)
+        end
     end.
 
   (** [size()]: sum of the popcounts over the store's iteration *)
@@ -576,6 +600,49 @@ Section TRIE.
         | Some (vs, bc, ec) => range_loop d t (2 * trie_weight d t + 2) vs bc ec
         end
     end.
+
+  (** [iterator(it)] for every [it] of the top-level store's iteration: the tuple shown and the core *)
+  Definition top_starts (d : nat) : trie d -> option (list (list Z * core d)) :=
+    match d return trie d -> option (list (list Z * core d)) with
+    | O => fun t =>
+        do b <- bm_begin fx m t;
+        do l <- bm_its_loop fx m t (trie_weight O t + 1) b;
+        Some (map (fun it : bmit => ([key_of_idx (snd it)], it)) l)
+    | S d' => fun t =>
+        do l <- sa_its fx m SA_BITS t;
+        fold_right (fun (e : N * N * trie d') acc =>
+                      do a <- acc;
+                      let '(q, f, n) := e in
+                      do r <- iter_first d' n; let '(vs, c) := r in
+                      Some ((key_of_idx f :: vs, (Some (q, f, n), c)) :: a)) (Some []) l
+    end.
+
+  (** the iterators [cur] at which [partition] cuts: those with running number [c] (from 1) such
+      that [c % step == 0 && c != 1] *)
+  Fixpoint cut_points {A} (step : N) (c : N) (l : list A) : list A :=
+    match l with
+    | [] => []
+    | a :: r => if (c mod step =? 0) && negb (c =? 1) then a :: cut_points step (c + 1) r
+                else cut_points step (c + 1) r
+    end.
+
+  Fixpoint chunks_loop (d : nat) (t : trie d) (fuel : nat) (vs : list Z) (c : core d)
+           (cuts : list (list Z * core d)) : option (list (list (list Z))) :=
+    match cuts with
+    | [] => do l <- range_loop d t fuel vs c (core_end d); Some [l]
+    | (vs1, c1) :: rest =>
+        do l <- range_loop d t fuel vs c c1;
+        do r <- chunks_loop d t fuel vs1 c1 rest; Some (l :: r)
+    end.
+
+  (** [partition(chunks)]: the contents of the returned ranges. [chunks = 0] divides by zero. *)
+  Definition trie_partition (d : nat) (t : trie d) (chunks : N) : option (list (list (list Z))) :=
+    if trie_is_empty d t then Some [] else
+    if chunks =? 0 then None else
+    do starts <- top_starts d t;
+    let step := N.max (N.of_nat (length starts) / chunks) 1 in
+    do b <- trie_begin d t; let '(vs, c) := b in
+    chunks_loop d t (2 * trie_weight d t + 2) vs c (cut_points step 1 starts).
 End TRIE.
 
 (** ** Specification: finite sets of tuples, kept as sorted duplicate-free lists.
@@ -610,11 +677,35 @@ Fixpoint is_prefix (p t : list Z) : bool :=
   end.
 Definition set_prefix (p : list Z) (s : list (list Z)) : list (list Z) := filter (is_prefix p) s.
 
+(** [partition(chunks)] on the set model: the tuples are grouped by their first component (the
+    top-level elements of the trie: [store.size()] of them); a new chunk starts at every group whose
+    running number c (from 1) satisfies [c % step == 0 && c != 1], step = max(#groups / chunks, 1) *)
+Fixpoint groups_by_hd (s : list (list Z)) : list (list (list Z)) :=
+  match s with
+  | [] => []
+  | t :: r => match groups_by_hd r with
+              | (u :: g) :: gs => if Z.eqb (hd 0%Z t) (hd 0%Z u) then (t :: u :: g) :: gs
+                                  else [t] :: (u :: g) :: gs
+              | _ => [[t]]
+              end
+  end.
+Fixpoint merge_cut (step c : N) (gs : list (list (list Z))) (cur : list (list Z)) : list (list (list Z)) :=
+  match gs with
+  | [] => [cur]
+  | g :: r => if (c mod step =? 0) && negb (c =? 1) then cur :: merge_cut step (c + 1) r g
+              else merge_cut step (c + 1) r (cur ++ g)
+  end.
+Definition set_partition (s : list (list Z)) (chunks : N) : list (list (list Z)) :=
+  match groups_by_hd s with
+  | [] => []
+  | g :: gs => merge_cut (N.max (N.of_nat (length (g :: gs)) / chunks) 1) 2 gs g
+  end.
+
 (** ** Histories (what the drivers run) *)
 Inductive op :=
-| OIns (t : list Z) | OMem (t : list Z) | OSize | OIter | OPrefix (p : list Z).
+| OIns (t : list Z) | OMem (t : list Z) | OSize | OIter | OPrefix (p : list Z) | OPart (n : N).
 Inductive ans :=
-| ABool (r : bool) | ANum (n : N) | ATuples (l : list (list Z)) | AUndef.
+| ABool (r : bool) | ANum (n : N) | ATuples (l : list (list Z)) | AChunks (l : list (list (list Z))) | AUndef.
 
 (** run a history on the model; [AUndef] = no defined result (state unchanged) *)
 Fixpoint run_model (fx : bool) (m : shmode) (d : nat) (t : trie d) (h : list op) : list ans :=
@@ -633,6 +724,8 @@ Fixpoint run_model (fx : bool) (m : shmode) (d : nat) (t : trie d) (h : list op)
                  :: run_model fx m d t h'
       | OPrefix p => (match trie_prefix fx m d t p with Some l => ATuples l | None => AUndef end)
                      :: run_model fx m d t h'
+      | OPart n => (match trie_partition fx m d t n with Some l => AChunks l | None => AUndef end)
+                   :: run_model fx m d t h'
       end
   end.
 
@@ -647,5 +740,9 @@ Fixpoint run_spec (s : list (list Z)) (h : list op) : list ans :=
       | OSize => ANum (N.of_nat (length s)) :: run_spec s h'
       | OIter => ATuples s :: run_spec s h'
       | OPrefix p => ATuples (set_prefix p s) :: run_spec s h'
+      | OPart n => (match s with
+                    | [] => AChunks []
+                    | _ :: _ => if n =? 0 then AUndef else AChunks (set_partition s n)
+                    end) :: run_spec s h'
       end
   end.
